@@ -72,7 +72,7 @@ def src_value(src):
 
 
 # ---- ops: ("eq", x) ("min", x) ("max", x) ("in", x) ("get", k, op)
-def gen_op(rng, kind, src, depth=0, childkinds=None):
+def gen_op(rng, kind, src, depth=0, childkinds=None, path=()):
     x = rng.randint(-3, 9)
     if kind in ("eq", "min", "max", "in"):
         if kind == "eq" and src is not None and src[0] == "atom" and rng.random() < 0.6:
@@ -87,7 +87,7 @@ def gen_op(rng, kind, src, depth=0, childkinds=None):
     child = kvs.get(k)
     if childkinds is None:
         childkinds = {}
-    key = (depth, k)
+    key = path + (k,)
     if key not in childkinds:
         if child is None:
             childkinds[key] = rng.choice(["eq", "eq", "min", "max", "in"] + (["dict"] if depth < 1 else []))
@@ -100,7 +100,7 @@ def gen_op(rng, kind, src, depth=0, childkinds=None):
         ck = rng.choice(["eq", "min", "in"])      # foreign operation on the child
         if child is not None and ((child[0] == "atom") != (ck in ("eq", "min", "max")) or (child[0] == "dict")):
             ck = childkinds[key]
-    return ("get", k, gen_op(rng, ck, child, depth + 1, childkinds))
+    return ("get", k, gen_op(rng, ck, child, depth + 1, childkinds, key))
 
 
 def gen_case(rng, kinds=("eq", "min", "max", "in", "dict"), flags=None, old_prob=0.75, max_ops=5, allow_foreign=True):
